@@ -5,6 +5,7 @@ import tempfile
 import numpy as np
 
 from harness.common import Check, Model, build, finish, rng
+from harness.impl import call
 from harness import filegen
 from harness.impl import call
 
@@ -128,11 +129,88 @@ def run(tier):
                         chk.fail(f'source:{kind}:rejected', case, f'write raised {res["error"]} ({res["stage"]})')
                     elif res['data'] != ref['data']:
                         chk.fail(f'source:{kind}:index-cast-differs', case, 'file differs from the dict source with pre-sliced arrays')
+        # data set names that cross the channel names: channel A is fed from the data set called 'B' and channel B from the
+        # one called 'A' (same dtype, so that a structured array with fields A, B has exactly the frame's row type)
+        from dliswriter import DLISFile as _DF
+        for si in range(8 if tier == 'quick' else 60):
+            dt = R.choice(['float64', 'float32', 'int16', 'uint8'])
+            n_ = R.choice([2, 3, 5])
+            A_ = _np.arange(n_).astype(dt) + 1
+            B_ = (_np.arange(n_) * 10 + 50).astype(dt)
+            third = R.random() < 0.5
+
+            def make(inline):
+                df = _DF(set_identifier='CROSS')
+                lf = df.add_logical_file()
+                lf.add_origin('O', file_set_number=1, creation_time='2020/01/01 00:00:00')
+                a = lf.add_channel('A', dataset_name='B', **({'data': B_} if inline else {}))
+                b = lf.add_channel('B', dataset_name='A', **({'data': A_} if inline else {}))
+                chans = [a, b]
+                if third:
+                    chans.append(lf.add_channel('C', **({'data': A_ * 2} if inline else {})))
+                lf.add_frame('F', channels=chans)
+                return df
+            pth = f'{tmp}/cross.dlis'
+            call(make(True).write, pth, output_chunk_size=2**20)
+            ref = open(pth, 'rb').read()
+            fields = [('A', dt), ('B', dt)] + ([('C', dt)] if third else [])
+            for kind in ('dict', 'struct-same-order', 'struct-other-order'):
+                if kind == 'dict':
+                    src = {'A': A_, 'B': B_, 'C': A_ * 2}
+                else:
+                    fl = fields if kind == 'struct-same-order' else list(reversed(fields))
+                    src = _np.zeros(n_, dtype=fl)
+                    src['A'], src['B'] = A_, B_
+                    if third:
+                        src['C'] = A_ * 2
+                ic = R.choice([None, 1, 2])
+                st, err = call(make(False).write, pth, data=src, output_chunk_size=2**20, input_chunk_size=ic)
+                case = {'channels': {'A': "dataset_name='B'", 'B': "dataset_name='A'"}, 'dtype': dt, 'rows': n_, 'source': kind,
+                        'input_chunk_size': ic, 'third_channel': third}
+                chk.case('crossed-dataset-names', nontrivial_key=('x', si, kind), sample=dict(case, status=st))
+                if st != 'ok':
+                    chk.fail(f'source:{kind}:rejected', case, f'write raised {err}')
+                elif open(pth, 'rb').read() != ref:
+                    chk.fail(f'source:{kind}:crossed-names-differ', case, 'file differs from the one written from inline data: the '
+                                                                         'channels were not fed from the data sets they name')
+        # an EMPTY data set name is a name like any other: the channel is fed from the data set called '' of a dict (a
+        # structured array or HDF5 file cannot hold one), also when the dict has a data set named like the channel
+        for si in range(6 if tier == 'quick' else 40):
+            dt = R.choice(['float64', 'int16'])
+            n_ = R.choice([2, 4])
+            own = (_np.arange(n_) + 1).astype(dt)
+            look = (_np.arange(n_) * 7 + 100).astype(dt)
+
+            def make2(inline):
+                df = _DF(set_identifier='EMPTY')
+                lf = df.add_logical_file()
+                lf.add_origin('O', file_set_number=1, creation_time='2020/01/01 00:00:00')
+                a = lf.add_channel('RPM', dataset_name='', **({'data': own} if inline else {}))
+                b = lf.add_channel('X', **({'data': look} if inline else {}))
+                lf.add_frame('F', channels=[a, b])
+                return df
+            pth = f'{tmp}/empty.dlis'
+            s0, e0 = call(make2(True).write, pth, output_chunk_size=2**20)
+            if s0 != 'ok':
+                chk.count(f'empty-dataset-name:inline-refused:{e0}')
+                continue
+            ref = open(pth, 'rb').read()
+            for extra in (False, True):
+                src = {'': own, 'X': look}
+                if extra:
+                    src['RPM'] = look
+                st, err = call(make2(False).write, pth, data=src, output_chunk_size=2**20, input_chunk_size=R.choice([None, 1]))
+                case = {'channel': "RPM with dataset_name=''", 'dict_keys': sorted(src), 'dtype': dt, 'rows': n_}
+                chk.case('empty-dataset-name', nontrivial_key=('ed', si, extra), sample=dict(case, status=st))
+                if st != 'ok':
+                    chk.fail('source:dict:rejected', case, f'write raised {err}; the same channels with inline data are written')
+                elif open(pth, 'rb').read() != ref:
+                    chk.fail('source:dict:empty-name-differs', case, 'file differs from the one written from inline data')
         # one DLISFile written several times, each time from another kind of source holding OTHER values (same names,
         # shapes and dtypes): every file must equal the one a fresh specification writes from that data as a dict
         import numpy as np
         import pickle
-        from harness.impl import call
+        pass
         for si in range(12 if tier == 'quick' else 120):
             rows = R.choice([2, 3, 5])
             spec = filegen.gen_spec(R, n_lf=1, small=True, rows=rows, vrl=R.choice([8192, 128]), with_index=False)
